@@ -410,6 +410,14 @@ def poc_frechet_direct_path(force, ret_details=False):
     contact point. For shorter baselines, the contact point will
     be closer to the point of maximum indentation.
     """
+    if force.size == 0:
+        # No data (e.g. nothing before the force maximum): let
+        # `compute_poc` fall back to the center of the data.
+        if ret_details:
+            return np.nan, {}
+        else:
+            return np.nan
+
     x = np.linspace(0, 1, len(force), endpoint=True)
     y = (force - force.min()) / (force.max() - force.min())
 
